@@ -172,7 +172,7 @@ func TestC17(t *testing.T) {
 	report(t, r2)
 	// (3) end to end: the double-quoted spelling under the option returns what the backtick spelling returns without it;
 	// literal contents reach the engine untouched; Wrapped == passing {"root": input}
-	r3 := &result{Property: "C17", Name: "options-preserve-meaning", Bound: "identifier/literal contents over a fixed list of 12 awkward strings x 4 query shapes; Wrapped() against an explicit root for 7 queries (flat, derived table, CTE, UNION, subquery, EXISTS, join)"}
+	r3 := &result{Property: "C17", Name: "options-preserve-meaning", Bound: "identifier/literal contents over a fixed list of 12 awkward strings x 4 query shapes; both dialect options together for 5 identifiers x 2 shapes; Wrapped() against an explicit root for 7 queries (flat, derived table, CTE, UNION, subquery, EXISTS, join)"}
 	var doc map[string]any
 	json.Unmarshal([]byte(`{"t":[{"name":"é","v":1,"a b":2,"x":"it's"},{"name":"a\"b","v":2,"a b":3,"x":"[1]"},{"name":"p[0]","v":3,"a b":4,"x":"\\"}]}`), &doc)
 	lits := []string{"é", "a\"b", "p[0]", "it''s", "\\\\", "[1]", "`", "a b", "]", "[", "x", "\xe2\x82\xac"}
@@ -199,6 +199,23 @@ func TestC17(t *testing.T) {
 		b, errB := run(doc, q2)
 		if (errA == nil) != (errB == nil) || a != b {
 			r3.violate("%q under IdiomaticArrays: %s (%v); ARRAY spelling: %s (%v)", q, a, errA, b, errB)
+		}
+	}
+	// both options together: the identifier rewrite and the array rewrite compose, whatever the identifier contains
+	// (an escaped quote changes the length of the text in front of a bracket)
+	for _, id := range [][2]string{{"k", "k"}, {"x\\\"y", "x\"y"}, {"a b", "a b"}, {"p[0]", "p[0]"}, {"q\\\"\\\"r", "q\"\"r"}} {
+		for _, shape := range [][2]string{
+			{"SELECT v AS \"%s\", [v, [1, 2]] AS arr FROM t", "SELECT v AS `%s`, ARRAY(v, ARRAY(1, 2)) AS arr FROM t"},
+			{"SELECT [v, 1] AS arr, v AS \"%s\", [2] AS brr FROM t", "SELECT ARRAY(v, 1) AS arr, v AS `%s`, ARRAY(2) AS brr FROM t"},
+		} {
+			r3.Cases++
+			qBoth := fmt.Sprintf(shape[0], id[0])
+			qPlain := fmt.Sprintf(shape[1], id[1])
+			a, errA := run(doc, qBoth, genql.PostgresEscapingDialect(), genql.IdomaticArrays())
+			b, errB := run(doc, qPlain)
+			if (errA == nil) != (errB == nil) || a != b {
+				r3.violate("%q under both options: %s (%v); plain spelling %q: %s (%v)", qBoth, a, errA, qPlain, b, errB)
+			}
 		}
 	}
 	// Wrapped() == passing {"root": input}, for flat queries and for every kind of nested query
